@@ -266,7 +266,7 @@ Theorem normalise_scale (c : R) (ws : list R) :
   0 < c -> Forall (fun w => 0 < w) ws ->
   @normalise RNum (map (Rmult c) ws) = @normalise RNum ws.
 Proof.
-  intros Hc Hws. unfold normalise. rewrite !sum_Rsum, Rsum_map_Rmult, map_map.
+  intros Hc Hws. unfold normalise. cbn [is_fin RNum]. rewrite !sum_Rsum, Rsum_map_Rmult, map_map.
   destruct ws as [|w0 ws]; [reflexivity|].
   assert (Hs : 0 < Rsum (w0 :: ws)) by (apply Rsum_pos; [discriminate|assumption]).
   apply map_ext. intros w. cbn [div RNum T] in *. field. lra.
